@@ -14,6 +14,7 @@ import TlxVerif.Proofs.C01Main
 import TlxVerif.Proofs.C01Copy
 import TlxVerif.Proofs.C01EraseE
 import TlxVerif.Proofs.C01EraseG
+import TlxVerif.Proofs.C01Bulk
 namespace TlxVerif.C02
 open TlxVerif.C01
 
@@ -203,11 +204,18 @@ theorem inv_all_histories (p : Params K) (pv : p.Valid) (sw : StrictWeak p.lt) :
       obtain ⟨t', lg', h1, h2⟩ := ih (clear t).1 _ hc.1 hb'
       exact ⟨t', lg', by simp only [runOps]; exact h1, h2⟩
 
--- OPEN: inv_bulk_load — `bulkLoad` of a sorted range yields a state satisfying `TreeInv` whose ledger
---   equals its node count (the `n / (parts - i)` distribution keeps every node at least half full).
-def inv_bulk_load_statement (p : Params K) : Prop :=
-  ∀ (es : List (K × V)), SortedE p.lt es →
+/-- `bulk_load` of an ordered range establishes the invariant and allocates exactly the nodes of the tree
+(every node at least half full: the `n / (parts − i)` distribution) -/
+theorem inv_bulk_load (p : Params K) (pv : p.Valid) (sw : StrictWeak p.lt) (es : List (K × V)) (hs : SortedE p.lt es) :
     ∃ t l, bulkLoad p es = some (t, l) ∧ TreeInv p t ∧ t.toList = es ∧
-      l.leafAlloc = t.nLeaves ∧ l.innerAlloc = t.nInner
+      l.leafAlloc = t.nLeaves ∧ l.innerAlloc = t.nInner ∧ l.leafFree = 0 ∧ l.innerFree = 0 :=
+  bulkLoad_ok p pv sw es hs
+
+-- OPEN: verify_characterised — a transliteration `verifyB` of `verify()/verify_node()/verify_leaflinks()` with
+--   `verifyB t = true ↔ TreeInv p t` (so that the C++ self-check is characterised, not only used as an oracle).
+--   The harness runs the real `verify()` and an independent recomputation of the same conditions after every
+--   mutating call; the Lean-side characterisation is not written.
+def verify_characterised_statement (p : Params K) : Prop :=
+  ∃ verifyB : Tree K V → Bool, ∀ t, verifyB t = true ↔ TreeInv p t
 
 end TlxVerif.C02
